@@ -65,6 +65,7 @@ type scenario struct {
 	SelPos     bool       `json:"sel_pos"`   // also report Selection().Pos() in snapshots
 	PrintfAt   []int      `json:"printf_at"` // wait indexes at which another goroutine calls Shell.Printf
 	NoSnapshot bool       `json:"no_snapshot"`
+	CompSnap   bool       `json:"comp_snap"` // also report the completion engine (grids, selector, completed line) in snapshots
 }
 
 var rep *os.File
@@ -104,6 +105,23 @@ func (r *snapReader) Read(p []byte) (int, error) {
 		if r.sc.SelPos {
 			pb, pe := sh.Selection().Pos()
 			ev["selpos"] = []int{pb, pe}
+		}
+		if r.sc.CompSnap {
+			cl, selv := sh.VerifCompleted()
+			var groups []map[string]interface{}
+			for _, g := range sh.VerifCompletionGroups() {
+				rows := [][][]int{}
+				for _, row := range g.Rows {
+					rr := [][]int{}
+					for _, v := range row {
+						rr = append(rr, runes(v))
+					}
+					rows = append(rows, rr)
+				}
+				groups = append(groups, map[string]interface{}{"tag": g.Tag, "rows": rows, "aliased": g.Aliased, "maxx": g.MaxX,
+					"maxy": g.MaxY, "ncols": g.Columns, "px": g.PosX, "py": g.PosY, "cur": g.IsCurrent, "tw": g.TermWidth})
+			}
+			ev["comp"] = map[string]interface{}{"line": runes(cl), "selected": runes(selv), "groups": groups}
 		}
 		emit(ev)
 	} else {
